@@ -164,6 +164,43 @@ def gen(rng, tier):
                                                 "startk": startk, "targetk": targetk, "lexp": lexp, "nsteps": nsteps, "nstages": nstages,
                                                 "equil": equil, "work": work, "sched": sched, "kv": kv, "it0": it0, "history": hist},
                       "nontrivial": mode != "fixed" or kind == "walls"})
+    # ABMD ratchet and histogram restraint (CvModel/Ratchet.lean): energy and force at every step
+    for k in range(12 if tier == "quick" else 120):
+        if k % 2 == 0:
+            dec = (k // 2) % 2 == 1
+            kf = rng.choice([0.5, 2.0, 5.0]); stop = rng.uniform(0.5, 2.0) * (-1 if dec else 1)
+            conf = inj_cv("x0", 0, None, None, 1.0)
+            b = "abmd {\n name r\n colvars x0\n forceConstant %s\n stoppingValue %s\n%s}\n" % (num(kf), num(stop), " decreasing on\n" if dec else "")
+            lines = ["m.new 1", "M.noclock", cfg(conf), cfg(b), "B.abmd r 0 %s %s %d" % (fbits(kf), fbits(stop), int(dec))]
+            x = rng.uniform(-0.5, 0.5); hist = []
+            for s_ in range(rng.randint(10, 30)):
+                x += rng.uniform(-0.5, 0.6) * (-1 if dec else 1)
+                lines += [pos(0, 0.0, 0.0, x), "m.step"]; sl = len(lines)
+                lines += ["m.bias r", "b.force r"]
+                hist.append({"x": x, "line": sl})
+            cases.append({"lines": lines, "meta": {"kind": "abmd", "k": kf, "stop": stop, "dec": dec, "history": hist}, "nontrivial": True})
+        else:
+            nv = rng.randint(1, 3)
+            lower = -2.0; width = 0.5; nb = 8
+            sigma = rng.choice([0.3, 0.5, 1.0]); kf = rng.choice([1.0, 4.0])
+            ref = [rng.uniform(0.0, 0.5) for _ in range(nb)]
+            tot = sum(ref) * width
+            ref = [r / tot for r in ref]          # a normalised reference (the bias rescales one that is not)
+            conf = "".join(inj_cv("x%d" % i, i, None, None, 1.0) for i in range(nv))
+            b = ("histogramRestraint {\n name r\n colvars %s\n lowerBoundary %s\n upperBoundary %s\n width %s\n gaussianSigma %s\n refHistogram %s\n forceConstant %s\n}\n"
+                 % (" ".join("x%d" % i for i in range(nv)), num(lower), num(lower + nb * width), num(width), num(sigma), " ".join(num(r) for r in ref), num(kf)))
+            lines = ["m.new %d" % nv, "M.noclock", cfg(conf), cfg(b),
+                     "B.histr r %s %s %d %s %s %d %s %s" % (fbits(lower), fbits(width), nb, fbits(sigma), fbits(kf), nv, " ".join(str(i) for i in range(nv)), " ".join(fbits(r) for r in ref))]
+            hist = []
+            for s_ in range(rng.randint(5, 15)):
+                xs = [rng.uniform(-2.5, 2.5) for _ in range(nv)]
+                for i in range(nv):
+                    lines.append(pos(i, 0.0, 0.0, xs[i]))
+                lines.append("m.step"); sl = len(lines)
+                lines += ["m.bias r", "b.force r"]
+                hist.append({"x": xs, "line": sl})
+            cases.append({"lines": lines, "meta": {"kind": "histr", "lower": lower, "width": width, "nb": nb, "sigma": sigma, "k": kf, "ref": ref, "history": hist},
+                          "nontrivial": True})
     return cases
 
 
@@ -174,6 +211,8 @@ def distribution(cases):
         if "kind" not in m:
             continue
         d["kind"][m["kind"]] = d["kind"].get(m["kind"], 0) + 1
+        if m["kind"] in ("abmd", "histr"):
+            d["steps"] += len(m["history"]); continue
         d["mode"][m["mode"]] = d["mode"].get(m["mode"], 0) + 1
         d["restarts"] += sum(1 for h in m["history"] if h["boundary"] == "restart")
         d["cont"] += sum(1 for h in m["history"] if h["boundary"] == "cont")
@@ -190,6 +229,45 @@ def oracle(case, out):
     """closed forms: the centre / force constant prescribed for the absolute step, the documented potential at the value,
     work as the sum of force x increment, staged TI as a mean."""
     m = case["meta"]; viol = []
+    if m.get("kind") == "abmd":
+        # the ratchet: the reference follows the variable forward while it has not passed the stopping value
+        sgn = -1.0 if m["dec"] else 1.0
+        ref = None
+        for h in m["history"]:
+            x = h["x"]
+            if ref is None:
+                ref = x
+            diff = (x - ref) * sgn
+            if diff > 0:
+                e_exp = 0.0; f_exp = 0.0
+                if (ref - m["stop"]) * sgn <= 0:
+                    ref = x
+            else:
+                e_exp = 0.5 * m["k"] * diff * diff; f_exp = -sgn * m["k"] * diff
+            e = vals(out, h["line"] + 1, "e"); f = vals(out, h["line"] + 2, "bf")
+            if e is None or f is None:
+                return ["no ABMD energy / force reported"]
+            if abs(e[0] - e_exp) > 1e-10 * max(1.0, abs(e_exp)) or abs(f[0] - f_exp) > 1e-10 * max(1.0, abs(f_exp)):
+                return ["ABMD at value %r with reference %r: energy %r force %r, the ratchet's closed form gives %r and %r" % (x, ref, e[0], f[0], e_exp, f_exp)]
+        return []
+    if m.get("kind") == "histr":
+        nb = m["nb"]; sig = m["sigma"]
+        for h in m["history"]:
+            xs = h["x"]; n_ = len(xs)
+            norm = 1.0 / (math.sqrt(2.0 * math.pi) * sig * n_)
+            grid = [m["lower"] + (i + 0.5) * m["width"] for i in range(nb)]
+            p = [sum(norm * math.exp(-(g - x) ** 2 / (2 * sig * sig)) for x in xs) for g in grid]
+            d = [a - b for a, b in zip(p, m["ref"])]
+            e_exp = 0.5 * m["k"] * n_ * sum(v * v for v in d)
+            f_exp = [-(m["k"] * n_) * sum(d[i] * norm * math.exp(-(grid[i] - x) ** 2 / (2 * sig * sig)) * (grid[i] - x) / (sig * sig) for i in range(nb)) for x in xs]
+            e = vals(out, h["line"] + 1, "e"); f = vals(out, h["line"] + 2, "bf")
+            if e is None or f is None:
+                return ["no histogram-restraint energy / force reported"]
+            if abs(e[0] - e_exp) > 1e-10 * max(1.0, abs(e_exp)):
+                return ["histogramRestraint at %r: energy %r, half k N times the squared deviation of the smeared histogram from the reference is %r" % (xs, e[0], e_exp)]
+            if len(f) != len(f_exp) or any(abs(a - b) > 1e-10 * max(1.0, abs(b)) for a, b in zip(f, f_exp)):
+                return ["histogramRestraint at %r: forces %r, minus the gradient of the documented energy is %r" % (xs, f, f_exp)]
+        return []
     nd = m["nd"]; kv = m["kv"]; n = m["nsteps"]; first = m["it0"]; mode = m["mode"]
     staged = mode in ("centers_staged", "k_staged", "k_sched", "decouple_staged")
     nst = (len(m["sched"]) - 1) if m["sched"] else m["nstages"]
